@@ -46,6 +46,7 @@ type FuncContract struct {
 	Exits     []*Clause // thread-exit clauses
 	ChanInvs  []*ChanInv
 	Ghosts    []*GhostDecl
+	Extern    bool
 	Trusted   bool // contract is assumed, body not verified (interface methods, externals)
 	SharedAtomics bool
 	File      string
@@ -99,6 +100,7 @@ type Lemma struct {
 }
 
 type ContractDB struct {
+	externs map[string]*FuncContract // assumed contracts of functions outside the repository, by full name
 	funcs  map[string]*FuncContract // key pkgpath + "." + shortname
 	types  map[string]*TypeContract // key pkgpath + "." + name
 	specs  map[string]*SpecFunc
@@ -108,7 +110,7 @@ type ContractDB struct {
 }
 
 func NewContractDB() *ContractDB {
-	return &ContractDB{funcs: map[string]*FuncContract{}, types: map[string]*TypeContract{}, specs: map[string]*SpecFunc{}, pkgs: map[string]*packages.Package{}}
+	return &ContractDB{externs: map[string]*FuncContract{}, funcs: map[string]*FuncContract{}, types: map[string]*TypeContract{}, specs: map[string]*SpecFunc{}, pkgs: map[string]*packages.Package{}}
 }
 
 func (db *ContractDB) lookupFunc(fn *ssa.Function) *FuncContract {
@@ -205,7 +207,7 @@ func (db *ContractDB) parseLines(p *packages.Package, file string, lines []srcLi
 			continue
 		}
 		first := firstWord(t)
-		top := first == "func" || first == "type" || first == "spec" || first == "lemma" || first == "interface"
+		top := first == "func" || first == "type" || first == "spec" || first == "lemma" || first == "interface" || first == "extern"
 		if top || clauseKeywords[first] {
 			items = append(items, item{t, l.line})
 		} else if len(items) > 0 {
@@ -232,6 +234,11 @@ func (db *ContractDB) parseLines(p *packages.Package, file string, lines []srcLi
 			curLoop = 0
 			curFunc = &FuncContract{Pkg: p.PkgPath, Name: rest, Loops: map[int][]*Clause{}, File: file, Line: it.line}
 			db.funcs[p.PkgPath+"."+rest] = curFunc
+		case "extern":
+			curType = nil
+			curLoop = 0
+			curFunc = &FuncContract{Pkg: p.PkgPath, Name: rest, Loops: map[int][]*Clause{}, File: file, Line: it.line, Trusted: true, Extern: true}
+			db.externs[rest] = curFunc
 		case "type":
 			curFunc = nil
 			curType = &TypeContract{Pkg: p.PkgPath, Name: rest, GuardedBy: map[string]string{}, LockInv: map[string][]*Clause{}}
